@@ -543,3 +543,145 @@ def c14_r7(ctx):
     # runtime field node: alias and name
     bf = repo.func(BO + "GraphQLField._build_field_name")
     ctx.check(norm(bf.node.body[-1]) == "return f'{self._alias}: {self._field_name}' if self._alias else self._field_name", key(bf, "alias"), "field node name is not `alias: name` / `name`", bf.loc(), okmsg="field node: 'alias: name' or 'name'")
+
+
+# ====================================================================== hook firing order vs. plugin state
+def _plugin_rw(cg, fi: FuncInfo, seen=None) -> Tuple[Set[str], Set[str]]:
+    """(attributes of self read, attributes of self written) by a plugin method, through the helpers of its class"""
+    from ..absint import MUTATORS
+    seen = seen if seen is not None else set()
+    if fi.key in seen:
+        return set(), set()
+    seen.add(fi.key)
+    R: Set[str] = set()
+    W: Set[str] = set()
+    roots: Set[int] = set()
+
+    def self_root(e):
+        while isinstance(e, (ast.Subscript, ast.Attribute)):
+            if isinstance(e, ast.Attribute) and isinstance(e.value, ast.Name) and e.value.id == "self":
+                return e
+            e = e.value
+        return None
+    for n in ast.walk(fi.node):
+        r = None
+        if isinstance(n, (ast.Subscript, ast.Attribute)) and isinstance(n.ctx, (ast.Store, ast.Del)):
+            r = self_root(n)
+        elif isinstance(n, ast.Call) and isinstance(n.func, ast.Attribute) and n.func.attr in MUTATORS:
+            r = self_root(n.func.value)
+        elif isinstance(n, ast.AugAssign):
+            r = self_root(n.target)
+        if r is not None:
+            W.add(r.attr)
+            roots.add(id(r))
+    for n in ast.walk(fi.node):
+        if isinstance(n, ast.Attribute) and isinstance(n.value, ast.Name) and n.value.id == "self" and isinstance(n.ctx, ast.Load) and id(n) not in roots:
+            R.add(n.attr)
+    for _, rs in cg.callees(fi):
+        for r in rs:
+            if r.cls is fi.cls and r.cls is not None:
+                a, b = _plugin_rw(cg, r, seen)
+                R |= a
+                W |= b
+    return R, W
+
+
+class _Firing:
+    def __init__(self, repo):
+        from ..callgraph import CallGraph
+        self.repo = repo
+        self.cg = CallGraph(repo)
+        self.pm = repo.cls(PM)
+        self.hooks = set(_hooks(repo.cls(PB)))
+        self.memo: Dict[str, Set[str]] = {}
+
+    def fires(self, fi: FuncInfo, stack=()) -> Set[str]:
+        if fi.key in self.memo:
+            return self.memo[fi.key]
+        if fi.key in stack:
+            return set()
+        out: Set[str] = set()
+        for _, rs in self.cg.callees(fi):
+            for r in rs:
+                if r.cls is self.pm and r.node.name in self.hooks:
+                    out.add(r.node.name)
+                elif r.cls is not self.pm:
+                    out |= self.fires(r, stack + (fi.key,))
+        if not stack:
+            self.memo[fi.key] = out
+        return out
+
+    def node_fires(self, fi: FuncInfo, node_ast: ast.AST) -> Dict[str, List[FuncInfo]]:
+        """hook -> callees (or [] for a direct firing) through which the statement fires it"""
+        out: Dict[str, List[FuncInfo]] = {}
+        for _, rs in self.cg.calls_in(fi, node_ast):
+            for r in rs:
+                if r.cls is self.pm and r.node.name in self.hooks:
+                    out.setdefault(r.node.name, [])
+                elif r.cls is not self.pm:
+                    for h in self.fires(r):
+                        out.setdefault(h, []).append(r)
+        return out
+
+    def order_violations(self, fi: FuncInfo, w: str, r: str, depth: int = 0, stack=()) -> List[str]:
+        """paths on which hook `w` can fire after hook `r` inside fi (recursing into callees that fire both)"""
+        if depth > 6 or fi.key in stack:
+            return []
+        g = cfg_of(fi)
+        info = []
+        for n in g.stmts():
+            if n.ast is None:
+                continue
+            a = n.ast
+            if n.kind in ("loop", "test") and hasattr(a, "body") and not isinstance(a, ast.expr):
+                a = a.iter if isinstance(a, (ast.For, ast.AsyncFor)) else a.test if hasattr(a, "test") else a
+            nf = self.node_fires(fi, a)
+            if w in nf or r in nf:
+                info.append((n, nf))
+        out: List[str] = []
+        for rn, rf in info:
+            if r not in rf:
+                continue
+            after = g.reach_after(rn)
+            for wn, wf in info:
+                if w not in wf:
+                    continue
+                if wn.id != rn.id and wn.id in after and rn.id not in g.reach_after(wn):
+                    out.append(f"{fi.qualname}: `{norm(wn.ast)[:50]}` (fires {w}) runs after `{norm(rn.ast)[:50]}` (fires {r})")
+                elif wn.id == rn.id:
+                    both = [c for c in rf[r] if c in wf[w]]
+                    for c in both:
+                        out += self.order_violations(c, w, r, depth + 1, stack + (fi.key,))
+        return sorted(set(out))
+
+
+@rule("C15.R8", "hooks that fill a bundled plugin's state all fire before the hook that reads it (call-graph order from the entry point)", min_instances=6, also=["C02"])
+def c15_r8(ctx):
+    repo = ctx.repo
+    F = _Firing(repo)
+    base = repo.cls(PB)
+    entry = repo.func("main:client")
+    ef = F.fires(entry)
+    if len(ef) < 20:
+        raise AnalysisError(f"call graph from main.client reaches only {len(ef)} hooks ({sorted(ef)})")
+    n = 0
+    for ci in sorted(repo.all_classes(), key=lambda c: c.key):
+        if not ci.module.short.startswith("contrib") or ci is base or base not in repo.mro(ci):
+            continue
+        rw = {h: _plugin_rw(F.cg, ci.methods[h]) for h in sorted(F.hooks & set(ci.methods))}
+        for hr, (R, _) in rw.items():
+            for hw, (_, W) in rw.items():
+                if hw == hr:
+                    continue
+                for x in sorted(R & W):
+                    if x in rw[hr][1] and x in rw[hw][0]:
+                        continue  # both accumulate into and read the same container: no order can be required
+                    n += 1
+                    v = F.order_violations(entry, hw, hr)
+                    ctx.check(not v, f"{ci.module.short}::{ci.qualname}::{x}: {hw} before {hr}",
+                              f"{ci.qualname}.{hr} reads self.{x}, which {hw} fills, but the generator can fire {hw} after {hr}: {v[:2]} - the plugin then decides on incomplete state "
+                              "(e.g. ShorterResults counting the fields of a result class before its fragment base classes are known)", ci.loc(),
+                              okmsg=f"{ci.qualname}: every {hw} (writes {x}) precedes {hr} (reads {x})")
+    ctx.note(f"call graph: {F.cg.resolved} calls resolved, {F.cg.unresolved} attribute calls with unknown receiver type left out; main.client reaches {len(ef)} of {len(F.hooks)} hooks")
+    if n < 4:
+        raise AnalysisError(f"only {n} plugin state dependencies found")
